@@ -238,7 +238,10 @@ def run(ctx, params):
     gen = treegen.Gen()
     for i in range(params["random"]):
         size = rng.choice([1, 2, 3, 5, 10, 25, params["max"]])
-        t = nodegen.random_tree(rng, size, names=nodegen.NAMES if rng.random() < 0.5 else None)
+        same = 0.15 if i % 7 == 3 else 0.0
+        t = nodegen.random_tree(rng, size, names=nodegen.NAMES if rng.random() < 0.5 else None, p_same_id=same)
+        if same and size > 2:
+            ctx.count("trees_with_repeated_id_on_a_path")
         judge(ctx, t, "api-built")
         if i % 17 == 0:
             plain = snapshot.to_plain(t)
